@@ -689,6 +689,29 @@ def r6(k: Kit) -> None:
                   'negotiated for this connection', k.loc(fi, n),
                   g.describe_path(w) if w else None)
 
+    # the key pairs in options.server_host_keys are shared by every
+    # connection of the listener: a connection must not change them
+    rd = k.rd(fi)
+    sites = k.calls_named(fi, 'set_sig_algorithm')
+    rep.floor('C03.R6', 'set_sig_algorithm sites', len(sites), 1)
+    for nd, c in sites:
+        leaves, free = expr_sources(g, rd, nd.id, c.func.value)
+        shared = [l for l in leaves
+                  if not (isinstance(l, ast.Call) and
+                          (dotted(l.func) or '').split('.')[-1] in
+                          ('copy', 'deepcopy'))]
+        rep.check(bool(leaves) and not shared and not free, 'C03.R6',
+                  key(fi, 'shared key pair not mutated'),
+                  'the signature algorithm is set on a per-connection copy',
+                  f'set_sig_algorithm is applied to `{norm(shared[0]) if shared else "?"}`'
+                  ', the key pair object every connection of the listener '
+                  'shares: between this connection\'s KEXINIT and its kex '
+                  'reply another connection can switch it, so an on-path '
+                  'party that only delays packets and opens a connection '
+                  'of its own gets H signed with ssh-rsa (SHA-1) although '
+                  'rsa-sha2-512 was negotiated - a silent downgrade',
+                  k.loc(fi, nd))
+
 
 def r7(k: Kit) -> None:
     """NEWKEYS / KEXINIT are accepted only in the state that makes the
